@@ -112,6 +112,12 @@ def _design(ctx, quick):
     out["states"], out["transitions"], out["depth"] = r.distinct, r.generated, r.depth
     out["wall_s"] = round(r.wall, 1)
     out["config"] = cfg0 + ": callers=%d, capacities 1..4, counts 1..3" % (3 if quick else 4)
+    # Interact.tla itself: canonical outcomes accepted, every single fault attributed exactly
+    im = vlib.tlc("InteractMC", "InteractMC", workers=1, timeout=900, heap="4g", expect_ok=True)
+    mm = re.search(r'<<"SUMMARY", "cases", (\d+), "faults", (\d+)>>', im.out)
+    if not im.ok or not mm:
+        raise vlib.Broken("InteractMC (vacuity guard of the clauses) failed: %s\n%s" % (im.violated_names(), im.out[-2500:]))
+    out["interact_cases"], out["interact_faults_attributed"] = int(mm.group(1)), int(mm.group(2))
     for cfg, inv in (("StackAllocMC_norestore", "FinalSizeExact"), ("StackAllocMC_writefirst", "FailedWritesNothing")):
         m = vlib.tlc("StackAlloc", cfg, workers=2, timeout=900, heap="4g", expect_ok=True)
         names = m.violated_names()
